@@ -93,23 +93,23 @@ theorem render_mem_warnings (D : DiagResult) (d : Diag) : d.render ∈ D.warning
 
 /-! ### what `grammarDiags` contains -/
 
-theorem emitDiag_undefined {reached : List String} {r : Rule} {n : String} :
-    emitDiag reached r = some (.undefinedRule n) ↔ r.body = .nil ∧ r.name = n ∧ n ≠ "PegText" := by
+theorem emitDiag_undefined {referenced reached : List String} {r : Rule} {n : String} :
+    emitDiag referenced reached r = some (.undefinedRule n) ↔ r.body = .nil ∧ r.name = n ∧ n ∈ referenced := by
   unfold emitDiag
   cases hb : r.body <;> simp <;> grind
 
-theorem emitDiag_unused {reached : List String} {r : Rule} {n : String} :
-    emitDiag reached r = some (.unusedRule n) ↔ r.body ≠ .nil ∧ r.name = n ∧ n ∉ reached := by
+theorem emitDiag_unused {referenced reached : List String} {r : Rule} {n : String} :
+    emitDiag referenced reached r = some (.unusedRule n) ↔ r.body ≠ .nil ∧ r.name = n ∧ n ∉ reached := by
   unfold emitDiag
   cases hb : r.body <;> simp <;> grind
 
-theorem emitDiag_leftRec {reached : List String} {r : Rule} {n : String} :
-    emitDiag reached r ≠ some (.leftRec n) := by
+theorem emitDiag_leftRec {referenced reached : List String} {r : Rule} {n : String} :
+    emitDiag referenced reached r ≠ some (.leftRec n) := by
   unfold emitDiag
   cases hb : r.body <;> simp <;> split <;> simp
 
-theorem mem_grammarDiags_leftRec (G : Grammar) (n : String) :
-    .leftRec n ∈ grammarDiags G ↔ n ∈ recWarnings G := by
+theorem mem_grammarDiags_leftRec (G : Grammar) (referenced : List String) (n : String) :
+    .leftRec n ∈ grammarDiags G referenced ↔ n ∈ recWarnings G := by
   simp only [grammarDiags, List.mem_append, List.mem_map, List.mem_filterMap]
   constructor
   · rintro (⟨a, ha, h⟩ | ⟨r, _, h⟩)
@@ -117,8 +117,9 @@ theorem mem_grammarDiags_leftRec (G : Grammar) (n : String) :
     · exact absurd h emitDiag_leftRec
   · exact fun h => Or.inl ⟨n, h, rfl⟩
 
-theorem mem_grammarDiags_undefined (G : Grammar) (n : String) :
-    .undefinedRule n ∈ grammarDiags G ↔ ∃ r, r ∈ G.rules ∧ r.body = .nil ∧ r.name = n ∧ n ≠ "PegText" := by
+theorem mem_grammarDiags_undefined (G : Grammar) (referenced : List String) (n : String) :
+    .undefinedRule n ∈ grammarDiags G referenced ↔
+      ∃ r, r ∈ G.rules ∧ r.body = .nil ∧ r.name = n ∧ n ∈ referenced := by
   simp only [grammarDiags, List.mem_append, List.mem_map, List.mem_filterMap]
   constructor
   · rintro (⟨a, _, h⟩ | ⟨r, hr, h⟩)
@@ -127,8 +128,8 @@ theorem mem_grammarDiags_undefined (G : Grammar) (n : String) :
   · rintro ⟨r, hr, h⟩
     exact Or.inr ⟨r, hr, emitDiag_undefined.mpr h⟩
 
-theorem mem_grammarDiags_unused (G : Grammar) (n : String) :
-    .unusedRule n ∈ grammarDiags G ↔ ∃ r, r ∈ G.rules ∧ r.body ≠ .nil ∧ r.name = n ∧ n ∉ reachedNames G := by
+theorem mem_grammarDiags_unused (G : Grammar) (referenced : List String) (n : String) :
+    .unusedRule n ∈ grammarDiags G referenced ↔ ∃ r, r ∈ G.rules ∧ r.body ≠ .nil ∧ r.name = n ∧ n ∉ reachedNames G := by
   simp only [grammarDiags, List.mem_append, List.mem_map, List.mem_filterMap]
   constructor
   · rintro (⟨a, _, h⟩ | ⟨r, hr, h⟩)
@@ -138,8 +139,9 @@ theorem mem_grammarDiags_unused (G : Grammar) (n : String) :
     exact Or.inr ⟨r, hr, emitDiag_unused.mpr h⟩
 
 theorem diagnostics_of_nodup {rules : List Rule} (h : (firstPass rules).2 = none) :
-    diagnostics rules = { dupError := none, diags := grammarDiags (linkGrammar rules).G,
-                          strictFails := !(grammarDiags (linkGrammar rules).G).isEmpty } := by
+    diagnostics rules =
+      { dupError := none, diags := grammarDiags (linkGrammar rules).G (linkGrammar rules).referenced,
+        strictFails := !(grammarDiags (linkGrammar rules).G (linkGrammar rules).referenced).isEmpty } := by
   simp [diagnostics, linkGrammar_dup, h]
 
 theorem diagnostics_of_dup {rules : List Rule} {n : String} (h : (firstPass rules).2 = some n) :
